@@ -67,7 +67,7 @@ def npt_family(dA, dB, lam, s=(0.8, 0.6), lu="g0|g1"):
 # ------------------------------------------------------------------------------------------------ is_ppt / is_npt
 def ppt_cases(tier, seed):
     for dA, dB in [(2, 2), (2, 3), (3, 2), (3, 3), (2, 4)] + ([(4, 3), (4, 4)] if tier == "thorough" else []):
-        for tolk in ("default", "1e-6", "1e-3"):
+        for tolk in ("default", "1e-6", "1e-3", "0"):
             for mult in (-10.0, -0.1, 0.1, 10.0, "far"):
                 for lu in ("I|I", "g0|g1", "F|ph"):
                     for sysv in (1, 2):
@@ -80,8 +80,9 @@ def ppt_check(case):
     from toqito.state_props import is_npt, is_ppt
 
     dA, dB = case["dA"], case["dB"]
-    tol = {"default": float(np.sqrt(np.finfo(float).eps)), "1e-6": 1e-6, "1e-3": 1e-3}[case["tol"]]
-    lam = 0.02 if case["mult"] == "far" else case["mult"] * tol
+    tol = {"default": float(np.sqrt(np.finfo(float).eps)), "1e-6": 1e-6, "1e-3": 1e-3, "0": 0.0}[case["tol"]]
+    # an explicit tolerance of zero is a strict test: eigenvalues +-1e-9 / +-1e-7 (well above rounding) decide it
+    lam = 0.02 if case["mult"] == "far" else (case["mult"] * tol if tol > 0 else case["mult"] * 1e-8)
     rho = npt_family(dA, dB, lam, lu=case["lu"])
     lam_ref = min_pt_eig(rho, dA, dB)
     if abs(lam_ref - lam) > max(1e-12, 0.05 * abs(lam)):
@@ -107,22 +108,34 @@ def ppt_check(case):
 
 # ------------------------------------------------------------------------------------------------ is_separable
 def product_terms(dA, dB):
-    """A fixed list of 7 product states (pure products and one product of mixed local states) as density matrices."""
-    ka = ["e0", "e1" if dA == 2 else "f1", "g0", "ramp", "g1"]
-    kb = ["e0", "g0", "e1" if dB == 2 else "f2", "g1", "chirp"]
+    """A fixed list of 7 product states (pure products, a product of mixed local states, a product with a maximally mixed factor).
+
+    For total dimension <= 6 (where PPT decides) two seed-derived generic kets take part.  For larger sizes the terms are
+    structured only (real and complex catalogue kets), so that the set of states on which is_separable reaches its final
+    symmetric-extension search does not depend on VERIF_SEED: the known finding lists those inputs one by one.
+    """
+    if dA * dB <= 6:
+        ka = ["e0", "e1" if dA == 2 else "f1", "g0", "ramp", "g1"]
+        kb = ["e0", "g0", "e1" if dB == 2 else "f2", "g1", "chirp"]
+        mixed = (catalog.density(dA, "gfull0"), catalog.density(dB, "gfull1"))
+    else:
+        ka = {2: ["e0", "+i", "pi8ph", "trine1", "-"], 3: ["e0", "f1", "chirp", "0i1", "ramp"], 4: ["e0", "f1", "chirp", "0i1", "ramp"]}[dA]
+        kb = {2: ["e1", "pi8ph", "+", "-i", "trine2"], 3: ["e0", "chirp", "f2", "ramp", "0i1"], 4: ["e1", "chirp", "f3", "ramp", "0i1"]}[dB]
+        mixed = (catalog.density(dA, "ramp2@F"), catalog.density(dB, "ramp2@F"))
     terms = []
     for a, b in zip(ka, kb):
         terms.append(np.kron(catalog.proj(catalog.ket(dA, a)), catalog.proj(catalog.ket(dB, b))))
-    terms.append(np.kron(catalog.density(dA, "gfull0"), catalog.density(dB, "gfull1")))
+    terms.append(np.kron(*mixed))
     terms.append(np.kron(catalog.proj(catalog.ket(dA, "e0")), np.eye(dB) / dB))
     return terms
 
 
-def sep_state(dA, dB, idx, weights):
+def sep_state(dA, dB, idx, weights, noise=0.0):
     terms = product_terms(dA, dB)
     w = np.array(weights, dtype=float)
     w = w / w.sum()
     rho = sum(wi * terms[i] for wi, i in zip(w, idx))
+    rho = (1 - noise) * rho + noise * np.eye(dA * dB) / (dA * dB)
     return (rho + rho.conj().T) / 2
 
 
@@ -149,6 +162,10 @@ def sep_cases(tier, seed):
                     comps = comps[:1] if tier == "quick" else comps[:2]
                 for w in comps:
                     yield {"kind": "separable", "dA": dA, "dB": dB, "idx": list(idx), "w": list(w), "dimform": "list"}
+                    if big and k >= 2:
+                        # moderately mixed versions: these are the states that only the block / spectrum / ball criteria certify
+                        for noise in ((0.6,) if tier == "quick" else (0.3, 0.6)):
+                            yield {"kind": "separable", "dA": dA, "dB": dB, "idx": list(idx), "w": list(w), "dimform": "list", "noise": noise}
         # argument forms on a few members
         yield {"kind": "separable", "dA": dA, "dB": dB, "idx": [0, 2], "w": [1, 3], "dimform": "scalar"}
         if dA == dB:
@@ -186,7 +203,7 @@ def traced_is_separable(rho, dim):
 def sep_check(case):
     dA, dB = case["dA"], case["dB"]
     if case["kind"] == "separable":
-        rho = sep_state(dA, dB, case["idx"], case["w"])
+        rho = sep_state(dA, dB, case["idx"], case["w"], case.get("noise", 0.0))
         got, exc, line, final = traced_is_separable(rho, _dim_arg(case))
         if exc is not None:
             if is_deliberate_rejection(exc):
